@@ -13,7 +13,7 @@
     [form_ok].  Control flow, runtime calls and bounds checks are not covered by this theorem:
     they are validated by execution (see DESIGN.md). *)
 From Coq Require Import ZArith List Bool Zdiv.
-From HPBF Require Import Cell Expr BC X86 X86Proofs X86Call X86CallProofs.
+From HPBF Require Import Cell Expr BC X86 X86Proofs X86Call X86CallProofs X86Mov X86MovProofs.
 Import ListNotations.
 Open Scope Z_scope.
 
@@ -89,6 +89,37 @@ Theorem C03_branch_template : forall w oracle i code st, br_ok i code = true ->
     match i with BrZ c _ => (kc st c =? 0) | BrNZ c _ => negb (kc st c =? 0) | _ => false end.
 Proof. exact br_ok_sound. Qed.
 
+(** ** the pointer move with its bounds probe ([Instr::Mov], checked mode; [X86Mov.v]).
+    [st]: machine state whose tape pointer rbp points at cell [q] of the buffer recorded in the
+    context ([mB] address, [mS] size in cells); [ext]: what the callee does to (address, size,
+    offset); [havoc]: what it leaves in caller-saved registers.  If [mov_ok] accepts the code then
+    it computes the index [q + d + probe] of the probed window end, compares it unsigned with the
+    size, and
+    - inside the buffer: only moves the pointer by [d] cells (nothing else but rax changes);
+    - outside: stores that index as the offset, calls [extend(cxt, 0, 1)] once on an aligned stack
+      with the live caller-saved registers saved and restored, and sets the pointer to the cell
+      [o' - probe] of the new buffer, [o'] being the offset the callee returns for the probed cell —
+      which is the JIT's variant of the probe protocol proved safe in [C06_protocol_safe]. *)
+Theorem C03_mov_template : forall w d mn mx live code, mov_ok w (MovP d) mn mx live code = true ->
+  forall havoc ext st q, mk st = [] -> mcalls st = [] -> mr st 5 = mB st + (w / 8) * q ->
+  let probe := if d <? 0 then mn else mx in
+  let idx := q + d + probe in
+  let below := (idx mod 2 ^ 64 <? mS st mod 2 ^ 64) in
+  exists stf, mrun havoc ext code st = (stf, below) /\
+    if below
+    then mr stf 5 = mB st + (w / 8) * (q + d) /\ mB stf = mB st /\ mS stf = mS st /\ mO stf = mO st /\
+         mk stf = [] /\ mcalls stf = [] /\ (forall r, r <> 0 -> r <> 5 -> mr stf r = mr st r)
+    else (let '(b', s', o') := ext (mB st, mS st, idx) in
+          mB stf = b' /\ mS stf = s' /\ mO stf = o' /\ mr stf 5 = b' + (w / 8) * (o' - probe)) /\
+         mcalls stf = [(mr st 3, 0, 1)] /\ mk stf = [] /\
+         (forall r, must_keep live r = true -> r <> 5 -> mr stf r = mr st r).
+Proof. exact mov_ok_sound. Qed.
+
+(** the unsigned comparison is the bounds test: with indices and sizes below 2^63 *)
+Theorem C03_unsigned_probe : forall idx S, - 2 ^ 63 <= idx < 2 ^ 63 -> 0 <= S < 2 ^ 63 ->
+  (idx mod 2 ^ 64 <? S mod 2 ^ 64) = ((0 <=? idx) && (idx <? S)).
+Proof. exact unsigned_below. Qed.
+
 (** the template the JIT emits for  Inp(-1)  with temporaries 4, 5, 6 live (three pushes and the
     alignment word) is accepted; without the alignment word, or jumping before the pops, it is not *)
 Example C03_call_nonvacuous :
@@ -113,3 +144,5 @@ Print Assumptions C03_form_sound.
 Print Assumptions C03_input_template.
 Print Assumptions C03_output_template.
 Print Assumptions C03_branch_template.
+Print Assumptions C03_mov_template.
+Print Assumptions C03_unsigned_probe.
